@@ -104,5 +104,16 @@ def run(ctx):
             ok = length == 8 and order == "little" and signed is False
     ctx.check("C14.R4", "result = accumulator.to_bytes(8, 'little', signed=False).hex()", ok, r.where(rets[0]) if rets else r.where(), f"rabin_fingerprint: {[norm(x.value)[:80] for x in rets]}", "the fingerprint is not printed as sixteen hex digits in little-endian byte order")
     stores_global = [n for n in walk_local(r.node) if isinstance(n, ast.Call) and isinstance(n.func, ast.Attribute) and n.func.attr in ("append", "extend", "__setitem__") and isinstance(n.func.value, ast.Name) and p.resolve(r.mod, n.func.value.id) is not None and not any(isinstance(s, ast.Assign) and any(isinstance(t, ast.Name) and t.id == n.func.value.id for t in s.targets) for s in walk_local(r.node))]
-    callees = a.cg.callees(r)
-    ctx.check("C14.R4", "the Rabin routine builds its table in locals and calls no package code", not stores_global and not callees, r.where(), f"rabin_fingerprint: module-level stores {[norm(x) for x in stores_global]}, callees {[c.id for c in callees]}", "a table shared between calls/threads makes the first concurrent calls see a partial table (see also C17/C18)")
+    # helpers are fine as long as they keep everything in locals too (no store to a module-level name, no global)
+    def _touches_module_state(g):
+        for n in ast.walk(g.node):
+            if isinstance(n, (ast.Global, ast.Nonlocal)):
+                return True
+            if isinstance(n, ast.Call) and isinstance(n.func, ast.Attribute) and n.func.attr in ("append", "extend", "__setitem__", "update", "add", "insert", "setdefault") and isinstance(n.func.value, ast.Name) and p.resolve(g.mod, n.func.value.id) is not None and n.func.value.id not in {x.id for x in ast.walk(g.node) if isinstance(x, ast.Name) and isinstance(x.ctx, ast.Store)} | set(g.params):
+                return True
+            if isinstance(n, ast.Subscript) and isinstance(n.ctx, (ast.Store, ast.Del)) and isinstance(n.value, ast.Name) and p.resolve(g.mod, n.value.id) is not None and n.value.id not in {x.id for x in ast.walk(g.node) if isinstance(x, ast.Name) and isinstance(x.ctx, ast.Store)} | set(g.params):
+                return True
+        return False
+
+    callees = [c for c in a.cg.reachable(a.cg.callees(r)) if _touches_module_state(c)] if a.cg.callees(r) else []
+    ctx.check("C14.R4", "the Rabin routine (and what it calls) keeps its table in locals", not stores_global and not callees, r.where(), f"rabin_fingerprint: module-level stores {[norm(x) for x in stores_global]}, callees {[c.id for c in callees]}", "a table shared between calls/threads makes the first concurrent calls see a partial table (see also C17/C18)")
